@@ -319,8 +319,15 @@ fn filler_value(name: &str, sig_value: Option<&str>, superstring: bool, sw: &str
 }
 
 pub fn build_http(sig: &HSig, request: bool, v11: bool, include_optional: bool, superstring: bool, full_sw: bool) -> (Vec<u8>, HttpModel) {
+    build_http_with(sig, request, v11, include_optional, superstring, full_sw, 0)
+}
+
+/// `alt` varies what no p0f HTTP signature constrains: the request method / the response status.
+pub fn build_http_with(sig: &HSig, request: bool, v11: bool, include_optional: bool, superstring: bool, full_sw: bool, alt: u64) -> (Vec<u8>, HttpModel) {
     let sw = if full_sw && !sig.expsw.is_empty() { format!("Mozilla/5.0 (X11) {} like", sig.expsw) } else if sig.expsw.is_empty() { "Thing/1.0".to_string() } else { sig.expsw.clone() };
-    let mut s = if request { format!("GET /index.html HTTP/1.{}\r\n", if v11 { 1 } else { 0 }) } else { format!("HTTP/1.{} 200 OK\r\n", if v11 { 1 } else { 0 }) };
+    let method = ["GET", "HEAD", "POST", "OPTIONS"][(alt % 4) as usize];
+    let status = ["200 OK", "404 Not Found", "301 Moved Permanently", "500 Internal Server Error"][(alt % 4) as usize];
+    let mut s = if request { format!("{method} /index.html HTTP/1.{}\r\n", if v11 { 1 } else { 0 }) } else { format!("HTTP/1.{} {status}\r\n", if v11 { 1 } else { 0 }) };
     let mut headers = Vec::new();
     let sw_header = if request { "User-Agent" } else { "Server" };
     let mut has_sw = false;
@@ -442,7 +449,7 @@ pub fn check_db(ctx: &mut Ctx, db: &'static Database, db_name: &str, items: &[St
                     IpVersion::Any => v % 2 == 0,
                 };
                 let hops = if v % 3 == 0 { 0 } else { 1 + r.below(30) as u8 };
-                let ep = Endpoints::v4([10, 3, (idx >> 8) as u8, idx as u8], 1025 + (v as u16 * 13) % 60000, [198, 51, 100, 7], 80);
+                let ep = Endpoints::v4([10, 3, (idx >> 8) as u8, idx as u8], 1025 + ((v * 13) % 60000) as u16, [198, 51, 100, 7], 80);
                 let Some(b) = build_tcp(sig, request, v4, hops, &mut r, &ep) else { continue };
                 let class = format!("{},{}", if v4 { "ipv4" } else { "ipv6" }, if hops == 0 { "hops=0" } else { "hops>0" });
                 let mut tracker = ttl_cache::TtlCache::new(16);
@@ -492,7 +499,8 @@ pub fn check_db(ctx: &mut Ctx, db: &'static Database, db_name: &str, items: &[St
                 let include_optional = v & 2 != 0;
                 let superstring = v & 4 != 0;
                 let full_sw = v & 8 != 0;
-                let (bytes, model) = build_http(sig, request, v11, include_optional, superstring, full_sw);
+                // method / status rotate over the variants (signatures do not constrain them)
+                let (bytes, model) = build_http_with(sig, request, v11, include_optional, superstring, full_sw, (v >> 1) + idx);
                 let class = format!("{},{}", if superstring { "values-as-substrings" } else { "values-exact" }, if full_sw { "software-token-inside-longer-string" } else { "software-string-exact" });
                 // packet level: scripted connection
                 let ep = Endpoints::v4([10, 4, (idx >> 8) as u8, idx as u8], 2000 + v as u16, [198, 51, 100, 9], 80);
@@ -654,7 +662,7 @@ fn derived_dbs(ctx: &mut Ctx) {
                             IpVersion::Any => v % 2 == 0,
                         };
                         let hops = if v % 3 == 0 { 0 } else { 1 + r.below(30) as u8 };
-                        let ep = Endpoints::v4([10, 5, (idx >> 8) as u8, idx as u8], 1025 + (v as u16 * 13) % 60000, [198, 51, 100, 7], 80);
+                        let ep = Endpoints::v4([10, 5, (idx >> 8) as u8, idx as u8], 1025 + ((v * 13) % 60000) as u16, [198, 51, 100, 7], 80);
                         let Some(b) = build_tcp(sig, request, v4, hops, &mut r, &ep) else { continue };
                         let run = |a: &huginn_net_tcp::HuginnNetTcp| -> Result<Option<String>, String> {
                             let mut tracker = ttl_cache::TtlCache::new(16);
